@@ -89,7 +89,7 @@ func check(c Case) vk.Verdict {
 	var script []Step
 	var doSave bool
 	var seenID, afterID string
-	var stepIDs []string // session id after each script step
+	var stepIDs []string       // session id after each script step
 	regenHit := map[int]bool{} // script steps whose "regenfault" met a Delete (which the storage refused)
 	var seenData map[string]string
 	var destroyed bool
